@@ -119,10 +119,13 @@ class Decimal(SimpleModel):
 
         msl = kwargs.get('max_str_len', None)
         if msl is None:
-            kwargs['max_str_len'] = cls.Attributes.total_digits + 3
-            # + 1 for decimal separator
-            # + 1 for negative sign
-            # + 1 for the leading zero of a purely fractional number
+            # derived from the digits this customization asks for; a
+            # customization that does not touch them keeps its parent's cap
+            if td is not None:
+                kwargs['max_str_len'] = td + 3
+                # + 1 for decimal separator
+                # + 1 for negative sign
+                # + 1 for the leading zero of a purely fractional number
 
         else:
             kwargs['max_str_len'] = msl
